@@ -33,6 +33,7 @@ TOL = 1e-12
 
 
 def monitor(ctx):
+    import sim
     from suites.kernels import (growing_degree_day, water_stress, temperature_stress, cc_development,
                                 cc_required_time, crop_obj, CROPS)
     thorough = ctx["tier"] != "quick"
@@ -119,7 +120,6 @@ def monitor(ctx):
     # fCO2 on the initialised model
     concs = [250, 300, 369.41, 400, 450, 500, 550, 551, 700, 1000, 1500, 1999, 2000, 2500]
     pairs = [(cn, float(co), "champion_climate.txt", "1985/05/01", "1986/12/30") for cn in CROPS for co in concs]
-    import sim
     remove_libm_proxy()
     res = sim.pmap(fco2_suite._job, pairs, timeout=60)
     install_libm_proxy()
@@ -136,9 +136,57 @@ def monitor(ctx):
         for c0, f0 in lst:
             if abs(c0 - 369.41) < 1e-9 and abs(f0 - 1) > TOL:
                 bad("C17:fco2_ref:%s" % cn, "fCO2 at reference concentration is not 1", {"crop": cn, "fCO2": f0})
-    return {"violations": viol, "coverage": {"evaluations": evals, "distinct_nontrivial": evals,
+    # fCO2 of LATER seasons (assigned by the season reset): over multi-season runs with the user's own yearly CO2 series — level
+    # stretches, the reference value itself, runs continuing past the last year of the series — the factor in force in a season must be a
+    # function of that season's concentration: equal concentrations give equal factors, 1 at the reference, non-decreasing
+    jobs = []
+    sel = [c for c in CROPS if sim.crop_params[c].get("CalendarType") == 1 and c not in sim.YLDWC0]
+    sel = sel if thorough else sel[::3]
+    for j, cn in enumerate(sel):
+        for ser in ([340.0, 369.41, 369.41, 420.0, 420.0, 420.0], [400.0, 400.0, 369.41, 369.41, 500.0], [369.41, 330.0, 330.0]):
+            jobs.append((cn, ser, 1986 + j % 3))
+    res2 = sim.pmap(_season_fco2_job, jobs, timeout=300)
+    seasons_seen = 0
+    for (cn, ser, y0), r in zip(jobs, res2):
+        if not r.get("ok"):
+            continue
+        seen = {}
+        for k, conc, f in r["seasons"]:
+            seasons_seen += 1; evals += 1
+            if abs(conc - 369.41) < 1e-9 and abs(f - 1) > TOL:
+                bad("C17:fco2_ref_season:%s" % cn, "fCO2 in force in season %d is %.9g at the reference concentration" % (k, f), {"crop": cn, "series": ser, "first_year": y0, "season": k})
+            for c0, f0 in seen.items():
+                if abs(c0 - conc) < 1e-9 and abs(f0 - f) > TOL:
+                    bad("C17:fco2_function_season:%s" % cn, "two seasons with the same concentration %.6g have factors %.9g and %.9g" % (conc, f0, f), {"crop": cn, "series": ser, "first_year": y0, "season": k})
+                if (c0 < conc and f0 > f + TOL) or (c0 > conc and f0 < f - TOL):
+                    bad("C17:fco2_mono_season:%s" % cn, "fCO2 not non-decreasing across seasons: %.6g ppm -> %.9g, %.6g ppm -> %.9g" % (c0, f0, conc, f), {"crop": cn, "series": ser, "first_year": y0, "season": k})
+            seen[conc] = f
+    return {"violations": viol, "coverage": {"evaluations": evals, "distinct_nontrivial": evals, "fco2_seasons_of_multi_season_runs": seasons_seen,
                                              "crops": len(CROPS), "fco2_crops_initialised": len(by)},
             "samples": [{"monitor": "lattice", "crops": len(CROPS), "dr_points": len(dr_lat), "et0_points": len(et_lat), "temp_points": len(t_lat)}]}
+
+
+def _season_fco2_job(job):
+    """(crop, yearly ppm series, first year) -> per season (index, concentration in force, fCO2 in force) of a run over the series' years + 1"""
+    import sim, pandas as pd
+    cn, ser, y0 = job
+    try:
+        plant = sim.default_planting(rng_for("c17", cn), cn, "champion_climate.txt")
+        cfg = {"start": "%d/%s" % (y0, plant), "end": "%d/12/30" % (y0 + len(ser)), "weather": {"file": "champion_climate.txt", "ops": []},
+               "crop": {"name": cn, "planting_date": plant, "harvest_date": None, "kwargs": {}}, "off_season": False,
+               "soil": {"type": "SandyLoam", "kwargs": {}}, "iwc": None, "irr": {"irrigation_method": 0}, "field": None, "fallow_field": None, "gw": None,
+               "co2": {"series": [[y0 + i, p] for i, p in enumerate(ser)]}}
+        m = sim.build_model(cfg); m._initialize()
+        out = []; seen = set()
+        while not m._clock_struct.model_is_finished:
+            k = int(m._clock_struct.season_counter)
+            m.run_model(num_steps=1, initialize_model=False)
+            if k >= 0 and k not in seen and k < len(m._param_struct.Seasonal_Crop_List):
+                seen.add(k)
+                out.append((k, float(m._param_struct.CO2.current_concentration), float(m._param_struct.Seasonal_Crop_List[k].fCO2)))
+        return {"ok": True, "seasons": out}
+    except Exception as e:
+        return {"ok": False, "err": repr(e)[:200]}
 
 
 def replay(data):
